@@ -1,6 +1,6 @@
 """C02: each unit runs exactly the first command matching its effective header."""
 import json
-import lib, parser_common as pc
+import lib, parser_common as pc, suite_traces
 
 def nontrivial(sc):
     hs = sc['meta']['hdrs']
@@ -11,7 +11,8 @@ def run(pid, tier):
     rep.cov['rule'] = ('cases = messages of 1..N units (N = 3 quick, 4 thorough) over a 28-spelling header vocabulary (short/long form, case, leading colon, optional '
                        'keyword present/absent, numeric suffix, relative headers, undefined, common) against an 11-entry table with overlapping patterns; enumerated by TLC '
                        '(GenParser InitC02), executed on the real library, validated by TLC (TVParser); non-trivial = >= 2 units and a header completed from the path')
-    rep.assumptions += ['handlers are scripted (queries answer their tag); table patterns satisfy the side condition of C03',
+    rep.assumptions += ['hook traces of the four unmodified CUnit programs (ASan+UBSan build) are validated by TVSuite; direct writes of test code to the status byte suspend the C11 clause until the next message',
+                        'handlers are scripted (queries answer their tag); table patterns satisfy the side condition of C03',
                         'the device-dependent text of -113 must contain the header as written or the effective header']
     n = 3 if tier == 'quick' else 4
     scen = pc.gen(rep, 'C02', dict(MaxUnits=n), nparts=14)
@@ -20,6 +21,7 @@ def run(pid, tier):
     if tier == 'thorough':
         obs = pc.execute(rep, scen[::7], 'noinfo', 'C02n')
         pc.validate(rep, 'C02', scen[::7], obs, 'C02-noinfo', info=0)
+    suite_traces.validate(rep, 'C02:')      # hook traces of the repository's own test programs
     nt = [s for s in scen if nontrivial(s)]
     rep.cov['distinct_nontrivial'] = len(nt)
     rep.cov['exhaustive'] = True
